@@ -305,6 +305,9 @@ func (e *Engine) unop(fr *frame, instr *ssa.UnOp, x Value) Value {
 		}
 		return smt.Neg(t)
 	case token.MUL:
+		if sp, ok := x.(*SymPtr); ok {
+			return e.symLoad(sp)
+		}
 		p, _ := x.(*Value)
 		return e.load(p)
 	case token.NOT:
